@@ -88,6 +88,13 @@ func (d *drv) setup() {
 	if logging.HCLogger == nil {
 		logging.HCLogger = zap.NewNop() // the world silences the other loggers; the health check has its own
 	}
+	// the world registers its nodes without SetID: without id bytes every sharder has the same hash score for
+	// every block and all of them are replicators of everything
+	for _, n := range append(append([]*node.Node{}, w.SharderNodes...), w.MinerNodes...) {
+		if err := n.SetID(n.ID); err != nil {
+			rec.Fatal("node id: %v", err)
+		}
+	}
 	// this node is sharder s1 of the magic block
 	node.Self.Node = w.SharderNodes[0]
 	if err := node.Self.SetSignatureScheme(w.Sharders[0].Scheme); err != nil {
